@@ -219,3 +219,16 @@ func (p Poly) String() string {
 	}
 	return b.String()
 }
+
+// Monomials returns the monomial keys of p (sorted; "" is the constant term).
+func (p Poly) Monomials() []string {
+	out := make([]string, 0, len(p.t))
+	for k := range p.t {
+		out = append(out, k)
+	}
+	sort.Strings(out)
+	return out
+}
+
+// Coeff returns the coefficient of a monomial key.
+func (p Poly) Coeff(mon string) int64 { return p.t[mon] }
